@@ -4,6 +4,7 @@ import (
 	"context"
 	"errors"
 	"net"
+	"os"
 	"time"
 
 	"github.com/IrineSistiana/mosproxy/internal/dnsmsg"
@@ -227,3 +228,144 @@ func VerifH_C16_ReplyShapes() {
 // dialled to exactly the host and port (or dial_addr override) the UDP leg uses — the scenario of C16_SameServer,
 // registered under the addressing property as well (5 host forms x 5 dial_addr forms x udp:// / scheme-less).
 func VerifH_C17_FallbackLegAddress() { VerifH_C16_SameServer() }
+
+// vLateTCP: the TCP side of a plain upstream's server. It answers every query with a header-only reply echoing ID and
+// the query's last flag octet in the rcode bits, but holds the reply to the FIRST query until `late` is closed. Deadlines
+// set to a past or present instant wake a blocked reader at once (harness-controlled clock), with a time-out that
+// unwraps to os.ErrDeadlineExceeded like a real socket's.
+type vLateTCP struct {
+	net.Conn
+	inbox    chan []byte
+	outbox   chan []byte
+	closedCh chan struct{}
+	closed   bool
+	dl       chan struct{}
+	dlFired  bool
+	pend     []byte
+}
+
+type vUpTimeout struct{}
+
+func (vUpTimeout) Error() string   { return "i/o timeout" }
+func (vUpTimeout) Timeout() bool   { return true }
+func (vUpTimeout) Temporary() bool { return true }
+func (vUpTimeout) Unwrap() error   { return os.ErrDeadlineExceeded }
+
+func newVLateTCP(late chan struct{}, holdFirst bool) *vLateTCP {
+	c := &vLateTCP{inbox: make(chan []byte, 4), outbox: make(chan []byte, 4), closedCh: make(chan struct{}), dl: make(chan struct{})}
+	go func() {
+		held := holdFirst
+		for {
+			var q []byte
+			select {
+			case q = <-c.outbox:
+			case <-c.closedCh:
+				return
+			}
+			if len(q) < 14 {
+				continue
+			}
+			if held {
+				held = false
+				select {
+				case <-late:
+				case <-c.closedCh:
+					return
+				}
+			}
+			c.inbox <- []byte{0, 12, q[2], q[3], 0x80, q[5] & 0xF, 0, 0, 0, 0, 0, 0, 0, 0}
+		}
+	}()
+	return c
+}
+
+func (c *vLateTCP) Read(p []byte) (int, error) {
+	if len(c.pend) == 0 {
+		select {
+		case b := <-c.inbox:
+			c.pend = b
+		case <-c.closedCh:
+			return 0, errVLeg
+		case <-c.dl:
+			return 0, vUpTimeout{}
+		}
+	}
+	n := copy(p, c.pend)
+	c.pend = c.pend[n:]
+	return n, nil
+}
+func (c *vLateTCP) Write(p []byte) (int, error) {
+	if c.closed {
+		return 0, errVLeg
+	}
+	c.outbox <- append([]byte(nil), p...)
+	return len(p), nil
+}
+func (c *vLateTCP) Close() error {
+	if !c.closed {
+		c.closed = true
+		close(c.closedCh)
+	}
+	return nil
+}
+func (c *vLateTCP) SetDeadline(t time.Time) error {
+	if c.closed {
+		return errVLeg
+	}
+	if c.dlFired {
+		c.dl, c.dlFired = make(chan struct{}), false
+	}
+	if !t.IsZero() && !t.After(time.Now()) {
+		c.dlFired = true
+		close(c.dl)
+	}
+	return nil
+}
+func (c *vLateTCP) SetReadDeadline(t time.Time) error  { return c.SetDeadline(t) }
+func (c *vLateTCP) SetWriteDeadline(t time.Time) error { return c.SetDeadline(t) }
+func (c *vLateTCP) LocalAddr() net.Addr                { return &net.TCPAddr{IP: net.IP{192, 0, 2, 200}, Port: 40001} }
+func (c *vLateTCP) RemoteAddr() net.Addr               { return &net.TCPAddr{IP: net.IP{192, 0, 2, 1}, Port: 53} }
+
+// VerifH_C16_AbandonedFallbackThenNext: "the caller receives the outcome of the TCP exchange" — of ITS OWN query. Query A
+// is truncated over UDP and retried over TCP, where the server is slow; A's caller gives up; the TCP reply to A arrives
+// later on the still open connection (before or after the next step, ≤ 2 scheduling deviations); query B is truncated
+// over UDP too and falls back to TCP. Through the upstream NewUpstream builds (real transports, UDP and TCP sockets
+// faked, harness-controlled clock): B's caller gets the TCP reply to B (or an error), never A's.
+func VerifH_C16_AbandonedFallbackThenNext() {
+	verifrt.Unwind(400)
+	verifrt.SchedBound(2)
+	verifrt.NoTimers()
+	verifrt.CtxNoExpiry = true
+	base := time.Unix(1700000000, 0)
+	verifrt.Redirect("time.Now", func() time.Time { return base })
+	late := make(chan struct{})
+	tcpDials := 0
+	verifrt.Redirect("(*net.Dialer).DialContext", func(d *net.Dialer, ctx context.Context, network, address string) (net.Conn, error) {
+		if network == "udp" {
+			return &vTCUDPConn{inbox: make(chan []byte, 4), closed: make(chan struct{})}, nil
+		}
+		tcpDials++
+		return newVLateTCP(late, tcpDials == 1), nil
+	})
+	u, err := NewUpstream("udp://192.0.2.7", Opt{})
+	verifrt.Assert(err == nil && u != nil, "upstream built")
+	mk := func(id uint16, marker byte) []byte {
+		return []byte{byte(id >> 8), byte(id), 0x01, marker, 0, 1, 0, 0, 0, 0, 0, 0, 1, 'q', 0, 0, 1, 0, 1}
+	}
+	ctxA, cancelA := verifrt.CtxWithCancel(nil)
+	resA := make(chan error, 1)
+	go func() { _, err := u.ExchangeContext(ctxA, mk(0x1111, 1)); resA <- err }()
+	verifrt.Quiesce() // A: UDP said TC, the TCP query is on the wire, the server is slow
+	verifrt.Assert(tcpDials == 1, "A fell back to TCP")
+	cancelA()
+	verifrt.Assert(<-resA != nil, "the abandoned exchange returns an error")
+	verifrt.Quiesce()
+	verifrt.Reach("abandoned")
+	go func() { close(late) }()
+	r, err := u.ExchangeContext(context.Background(), mk(0x2222, 2))
+	verifrt.Reach("second-returned")
+	if err == nil {
+		verifrt.Reach("second-answered")
+		verifrt.Assert(r.Header.ID == 0x2222 && r.Header.RCode == 2 && !r.Header.Truncated, "the caller receives the outcome of the TCP exchange of its own query")
+	}
+}
